@@ -45,7 +45,76 @@ func c19ReadLog(log string) []string {
 	return out
 }
 
+// "a hook that hangs is killed after its time limit": two hanging hooks - one that dies on any signal, one
+// that ignores SIGTERM / SIGINT / SIGHUP - are started by one notification of a caller built as the agent
+// builds it; shortly after the limit (one minute) neither process may exist any more.  Runs beside the rest
+// of the driver (it mostly waits).
+func c19KillLimit(done chan<- vCase) {
+	root, _ := os.MkdirTemp("", "verif-c19k-")
+	defer os.RemoveAll(root)
+	hd := filepath.Join(root, "hooks")
+	os.Mkdir(hd, 0755)
+	pidf := func(n string) string { return filepath.Join(root, n+".pid") }
+	os.WriteFile(filepath.Join(hd, "plain"), []byte(fmt.Sprintf("#!/bin/sh\necho $$ > %s\nexec sleep 600\n", pidf("plain"))), 0755)
+	os.WriteFile(filepath.Join(hd, "stubborn"), []byte(fmt.Sprintf("#!/bin/sh\ntrap '' TERM INT HUP\necho $$ > %s\nwhile :; do sleep 1; done\n", pidf("stubborn"))), 0755)
+	h, err := NewHooksCaller(hd, "/store/K")
+	if err != nil {
+		panic(err)
+	}
+	t0 := time.Now()
+	h.Notify <- true
+	pids := map[string]int{}
+	for i := 0; i < 300 && len(pids) < 2; i++ {
+		time.Sleep(20 * time.Millisecond)
+		for _, n := range []string{"plain", "stubborn"} {
+			if b, err := os.ReadFile(pidf(n)); err == nil {
+				var p int
+				if _, err := fmt.Sscanf(strings.TrimSpace(string(b)), "%d", &p); err == nil && p > 0 {
+					pids[n] = p
+				}
+			}
+		}
+	}
+	alive := func(p int) bool {
+		b, err := os.ReadFile(fmt.Sprintf("/proc/%d/stat", p))
+		if err != nil {
+			return false
+		}
+		// a zombie that nobody waits for would also be a leak, but the caller does wait: treat Z as gone
+		f := strings.Fields(string(b[strings.LastIndexByte(string(b), ')')+1:]))
+		return len(f) > 0 && f[0] != "Z"
+	}
+	limit := time.Minute
+	time.Sleep(time.Until(t0.Add(limit / 2)))
+	early := map[string]bool{}
+	for n, p := range pids {
+		early[n] = alive(p)
+	}
+	time.Sleep(time.Until(t0.Add(limit + 8*time.Second)))
+	viol := ""
+	late := map[string]bool{}
+	for n, p := range pids {
+		late[n] = alive(p)
+		if late[n] {
+			viol += fmt.Sprintf("the hanging hook %q (pid %d) is still running %d s after its start (time limit 60 s); ", n, p, int(time.Since(t0).Seconds()))
+			syscall.Kill(p, syscall.SIGKILL)
+		}
+	}
+	if len(pids) < 2 {
+		viol = "the hanging hooks were not started by the notification"
+	}
+	c := vCase{Prop: "C19", Kind: "kill-limit", Class: "kill-limit", Nontrivial: true,
+		Human: map[string]interface{}{"pids": pids, "alive_after_30s": early, "alive_after_68s": late}}
+	if viol != "" {
+		c.Violation = viol
+	}
+	done <- c
+}
+
 func runC19(em *vEmitter, r *vRng) {
+	killCase := make(chan vCase, 1)
+	go c19KillLimit(killCase)
+	defer func() { em.emit(<-killCase) }()
 	rate := 300 * time.Millisecond
 	// ---- (1) timing patterns ----
 	// each pattern: offsets (ms) of notifications; events are well away from the timer edges
